@@ -827,6 +827,7 @@ func isNamed(t types.Type, name string) bool {
 // call and changed by nothing else, so two function bodies never share a prefix.
 func FrameRule(w *World, b *Backend, r *Result, rule string) {
 	origins := map[string][]string{} // numeric origin -> where it prefixes a user variable name
+	stackPrefix := map[string][]string{}
 	var scan func(t Tmpl, where string)
 	scan = func(t Tmpl, where string) {
 		for i, p := range t {
@@ -845,6 +846,15 @@ func FrameRule(w *World, b *Backend, r *Result, rule string) {
 					h, ok2 := t[i+2].(Hole)
 					if ok1 && ok2 && l.S == "_" && classOfOrigin(h.Origin, "") == ClsIdent {
 						origins[p.Origin] = append(origins[p.Origin], where+"("+h.Origin+")")
+					}
+				}
+			case Hole:
+				// prefix read from the entry FuncStart pushed on the function stack (e.g. the function's name)
+				if i+2 < len(t) && strings.HasPrefix(p.Origin, "field:") && strings.Contains(p.Origin, "[*]") {
+					l, ok1 := t[i+1].(Lit)
+					h, ok2 := t[i+2].(Hole)
+					if ok1 && ok2 && l.S == "_" && classOfOrigin(h.Origin, "") == ClsIdent {
+						stackPrefix[p.Origin] = append(stackPrefix[p.Origin], where+"("+h.Origin+")")
 					}
 				}
 			}
@@ -866,8 +876,11 @@ func FrameRule(w *World, b *Backend, r *Result, rule string) {
 			}
 		}
 	}
-	if len(origins) == 0 {
-		r.Bad(rule, "frame:"+b.Role+":prefix", "-", "no numbered prefix of a function-local variable name found in any line template")
+	for o, ws := range stackPrefix {
+		r.Ok(rule, "frame:"+b.Role+":"+o, "-", "function-local names are prefixed with a value read from the entry FuncStart pushed for the function being emitted: "+strings.Join(uniq(ws), ", "))
+	}
+	if len(origins) == 0 && len(stackPrefix) == 0 {
+		r.Bad(rule, "frame:"+b.Role+":prefix", "-", "cannot identify what keeps the local variables of different functions apart (no prefix of a user variable name in any line template)")
 		return
 	}
 	var os []string
